@@ -249,9 +249,13 @@ def check(ctx):
     import props.C04 as c04
     sub = SubCtx(ctx)
     c04.check(sub)
-    badk = [r for r in sub.results if not r[2] and r[0].startswith('C04.R1') and ('undo' in r[1] or 'null' in r[1])]
-    ctx.ob('C03.R1.key-restored', 'undo_move/undo_null_move', not badk,
-           'after taking a (null) move back every component of the position key matches the restored field (C04.R1)%s'
+    # the undo functions set the key from the restored fields, so the key comes back exactly when the *made* move had left it in
+    # step with the fields too: the typestate results of all four functions count
+    badk = [r for r in sub.results if not r[2] and (r[0] in ('C04.R1.castling-key', 'C04.R1.ep-key') or
+                                                     (r[0].startswith('C04.R1') and ('undo' in r[1] or 'null' in r[1])))]
+    ctx.ob('C03.R1.key-restored', 'do/undo', not badk,
+           'making a (null) move and taking it back leaves every component of the position key in step with the fields at both ends, '
+           'so the key of the restored position is the key it had (C04.R1)%s'
            % ('' if not badk else ' — refuted: ' + '; '.join('%s %s at %s' % (r[0], r[1], r[4]) for r in badk[:4])),
            site=badk[0][4] if badk else undo.loc())
     # every Position field written (transitively) by do_* is accounted for
